@@ -28,11 +28,62 @@ TEXT = {
  "C10": ("Decides alloc(n) vs. owners created with symbolic multiplicities (N, count, remain) for new_many, "
          "new_many_iter, NewRcIter::{next, abort, drop}, weak_many, and the range of the count argument. "
          "The property is structural; known findings F4/F8 remain (count 0 and count >= 2^29).", "4.1, 4.2, 5/C10"),
+ "C02": ("Decides: a snapshot cannot outlive or straddle its guard (compile_fail witnesses + signature lifetimes); the epoch "
+         "that becomes a count-word stamp is read pinned and stays pinned to publication; every decrement and every shared link "
+         "write stamps; the cascade merges parent/link/child stamps and reclaims a non-root only past the threshold (else "
+         "defers); roots are destructed only through EBR; WeakSnapshot::upgrade adds the token at zero; collection only at the "
+         "outermost unpin. The grace-period argument over schedules is not decided.", "4.1, 4.3, 4.5, 4.6, 5/C02"),
+ "C05": ("Decides: DESTRUCTED is set by the CAS that observed zero before any destruct event on roots and cascade children; "
+         "increments fail exactly on DESTRUCTED and owners are created only on success (null -> null); the flag is never "
+         "cleared; the non-atomic increment is not reachable from Weak; weak handles cannot be dereferenced (witnesses). "
+         "Linearisation order of racing upgrades is not decided.", "4.1, 4.6, 5/C05"),
+ "C06": ("Decides only the structural clause: children whose count hits zero are disposed by direct recursion in the same "
+         "pass; a node defers itself only at the depth cap (>= 1024) or when its stamp is too recent. The numeric bound on "
+         "epoch advances is a runtime quantity and is not decided.", "4.7, 5/C06"),
+ "C07": ("Decides: the only recursion reachable from dispose is capped by a constant guard dominating a call with strictly "
+         "increasing depth; compares CAP x minimal frame with the smallest legal stack. Absence of overflow for a concrete "
+         "stack is not decidable statically here; F7 is a known finding.", "4.7, 5/C07"),
+ "C08": ("Decides exact strong-share transfer on every path of every AtomicRc method (ledger), provenance of what is returned, "
+         "that epoch bits never surface as failure (ptr_eq retry, sibling-checked), that every shared write is stamped, "
+         "that take needs &mut and links/raw moves are private (witnesses). Linearizability of histories is not decided.",
+         "4.2, 4.3, 4.6, 5/C08"),
+ "C13": ("Decides the necessary ordering and gating conditions: pin publishes + full barrier + re-validates; try_advance "
+         "refuses on a lagging pinned participant and on a stalled traversal, fences, advances by one; only bags >= 2 epochs "
+         "old are taken; seal epoch is fresh; deferred functions run only from Bag::drop inside collect at the outermost "
+         "unpin. The schedule-quantified property itself is not decided.", "4.5, 5/C13"),
+ "C15": ("Decides at-most-once by linearity (Deferred not Clone/Copy, call(self)), no deferred value is forgotten, full-bag "
+         "re-queue, thread-exit hand-over, Bag::drop calls all, closure storage sound for every size/alignment, pops read and "
+         "retire only on CAS success. 'Eventually' is not decided.", "4.5, 5/C15"),
+ "C16": ("Decides guard counting, clear-on-outermost-only, the repin/reactivate_after sequences including the unwind edge, "
+         "&mut receivers, Guard: !Send + !Sync (witnesses), Local.epoch written only through self.", "4.5, 4.6, 5/C16"),
+ "C17": ("Decides the predicate clause (head CAS control-dependent on predicate(next.data) for the very node installed, no "
+         "reload) and the at-most-once clause (read/retire only on CAS success; push links with CAS-on-null and loops). "
+         "FIFO order and linearizability are not decided.", "4.5, 5/C17"),
+ "C18": ("Decides: a stalled traversal aborts the advance; restart-on-marked-predecessor, finalize only by the unlinking "
+         "thread, insert-until-success. Completeness of a non-stalled traversal under races is not decided.", "4.5, 5/C18"),
+ "C19": ("All of it: eq/partial_cmp/cmp/hash of Rc and Snapshot are exactly the Option<&T> operations applied to as_ref() "
+         "(resolved callees, single path, operands in order); as_ref is None iff Tagged::is_null; ptr_eq is Tagged::ptr_eq; "
+         "Eq is a marker impl. Lawfulness is then std's for Option<&T>.", "4.6, 5/C19"),
+ "C20": ("Decides: no panicking TLS access (with only on a drop-free key; handle through try_with + fallback registration "
+         "on the same collector), the exiting thread's bag is handed over before unlinking, no handle/bag is forgotten. "
+         "Deadlock freedom and all TLS destruction orders are not decided.", "4.5, 5/C20"),
 }
 NOTE = ("trusted base: rustc nightly MIR/const-eval/callee resolution, the mirfacts exporter, the circlint path reader and "
         "higher-order models (Result::map, array::from_fn, LocalKey::with, scopeguard); only the live cfg! arm (x86-64) and "
         "non-unwinding paths are judged; user pop_edges/Drop assumed to honour RcObject's contract")
 TECH = {
+ "C02": "compile_fail witnesses + pinned-read dataflow + stamp dependence rules over MIR paths",
+ "C05": "interprocedural must-precede (DESTRUCTED CAS gates destruct events) + compile_fail witnesses",
+ "C06": "call-graph/handoff-kind rule over MIR paths (direct recursion vs deferral)",
+ "C07": "call-graph SCC + dominating depth-guard rule",
+ "C08": "ownership ledger + provenance + sibling CAS-loop cross-check + compile_fail witnesses",
+ "C13": "ordering/gating rules over MIR paths of pin/try_advance/collect (must-pass-through, who-may-call)",
+ "C15": "linearity (trait impls, forget sites) + path rules over defer/finalize/Deferred::new/queue pops",
+ "C16": "counting/sequence rules over MIR paths incl. unwind edge + compile_fail witnesses",
+ "C17": "control-dependence rule on the head CAS of pop_if (MIR paths)",
+ "C18": "path rules over list iterator/insert and try_advance's Stalled arm",
+ "C19": "resolved-callee delegation check (MIR)",
+ "C20": "TLS access discipline (type-resolved) + finalize hand-off path rules",
  "C01": "typestate/ownership ledger + protocol rules over MIR paths (custom rustc_private driver)",
  "C03": "ownership ledger + protocol rules over MIR paths (custom rustc_private driver)",
  "C04": "interprocedural must-precede (CAS gate dominates destruct events) + ledger over MIR paths",
